@@ -224,22 +224,15 @@ class PeekAll(Terminal):
 
     def parse(self, state: ParserState, pairs: list[Pair]) -> bool:  # noqa: D102
         position = state.pos
-        stack_size = len(state.user_stack)
-        children: list[Pair] = []
 
-        for i, literal in enumerate(reversed(state.user_stack)):
-            # XXX: can `literal` be empty?
+        for literal in reversed(state.user_stack):
             if not state.input.startswith(literal, position):
                 state.fail(literal)
                 return False
 
             position += len(literal)
 
-            if i < stack_size:
-                state.parse_trivia(children)
-
         state.pos = position
-        pairs.extend(children)
         return True
 
     def generate(self, gen: Builder, matched_var: str, pairs_var: str) -> None:
@@ -332,24 +325,16 @@ class PopAll(Terminal):
 
     def parse(self, state: ParserState, pairs: list[Pair]) -> bool:  # noqa: D102
         position = state.pos
-        children: list[Pair] = []
-        state.checkpoint()
 
-        while not state.user_stack.empty():
-            literal = state.user_stack.pop()
+        for literal in reversed(state.user_stack):
             if not state.input.startswith(literal, position):
-                state.restore()
                 state.fail(literal)
                 return False
 
             position += len(literal)
 
-            # TODO: don't skip trivia after the last pop
-            state.parse_trivia(children)
-
-        state.ok()
+        state.user_stack.clear()
         state.pos = position
-        pairs.extend(children)
         return True
 
     def generate(self, gen: Builder, matched_var: str, pairs_var: str) -> None:
